@@ -69,10 +69,22 @@ pub fn values_per_doc(tier: Tier, quick: u64, thorough: u64) -> u64 {
 /// Documents enumerated by the fault-enumeration checks: all but `DropProbeD`, whose `Drop` reads its
 /// borrowed data and therefore belongs to the ownership checks (C08/C09) only.
 pub fn enum_docs() -> Vec<&'static str> {
-    ALL_DOCS.iter().copied().filter(|d| *d != "DropProbeD").collect()
+    ALL_DOCS.iter().copied().filter(|d| *d != "DropProbeD" && !crate::docs::OVERALIGNED_DOCS.contains(d)).collect()
 }
 pub fn n_docs() -> u64 {
-    ALL_DOCS.len() as u64 - 1
+    ALL_DOCS.len() as u64 - 1 - crate::docs::OVERALIGNED_DOCS.len() as u64
+}
+/// Documents of the placement check (C12): the common ones followed by the over-aligned ones (unit 128), for
+/// which the heap loaders of the other checks have no fault-free reference.
+pub fn placement_docs() -> Vec<&'static str> {
+    let mut d = enum_docs();
+    d.extend(crate::docs::OVERALIGNED_DOCS.iter().copied());
+    d
+}
+pub fn unit_doc_placement(unit: u64) -> (&'static str, u64) {
+    let docs = placement_docs();
+    let n = docs.len() as u64;
+    (docs[(unit % n) as usize], unit / n)
 }
 /// unit → (document name, value index)
 pub fn unit_doc(unit: u64) -> (&'static str, u64) {
